@@ -423,3 +423,52 @@ def run(rep, programs):
     r_recover_flow(rep, prog)
     r_init_dispatch(rep, prog)
     r_rebuild_order(rep, prog)
+
+
+def r_rebuild_total(rep, prog):
+    """Recovery (and free-all / allocate-all) rebuilds the volatile tree array in Trees::new. The buffer it writes into is
+    arbitrary volatile memory: *every* entry has to be written, also the one of a tree without a free frame."""
+    rule = "R-REBUILD-TOTAL"
+    rep.rule(rule, "Trees::new: with a tree_init function, the entry of every tree is written in every iteration - the write depends "
+                   "only on the buffer-size assertion, tree_init being Some and the iterator not being exhausted")
+    b = lib.need_body(prog, "llfree::trees::Trees::new")
+    rep.saw(b.name)
+    tm = T.Terms(b, prog)
+    n = 0
+    for bi, si, s in b.stmts():
+        if not (s["k"] == "assign" and (s["place"].get("p") or []) and s["place"]["p"][0]["k"] == "deref"):
+            continue
+        v = T.canon(tm.rvalue(s["rv"]))
+        if not any(isinstance(x, tuple) and x and x[0] == "call" and str(x[1]).endswith("Tree::with") for x in T.walk(v)):
+            continue
+        n += 1
+        extra = []
+        for sd, d in lib.controlling_edges(b, bi):
+            c = T.canon(tm.operand(b.term(sd)["discr"]))
+            if c[0] == "discr":
+                inner = c[1]
+                if inner == ("p", "tree_init") or (inner[0] == "call" and str(inner[1]).endswith("::next")):
+                    continue
+            if c[0] == "bin" and any(x == ("p", "buffer") for x in T.walk(c)) and any(
+                    isinstance(x, tuple) and x and x[0] == "call" and str(x[1]).endswith("metadata_size") for x in T.walk(c)):
+                continue
+            if c[0] == "bin" and c[1] in ("Lt", "Le", "Gt", "Ge") and any(
+                    isinstance(x, tuple) and x and ((x[0] == "call" and str(x[1]).endswith("::len")) or (x[0] == "un" and x[1] == "PtrMetadata"))
+                    for x in (c[2], c[3])):
+                continue      # index loop bound: i < entries.len()
+            extra.append((str(c)[:100], b.term(sd).get("span")))
+        rep.check(not extra, rule, "Trees::new|entry-write-unconditional", "every tree's entry is written",
+                  "the entry of a tree is written only under a further condition (%s): entries that fail it keep what the volatile "
+                  "buffer held before (stale free / reserved / class bits after recovery)" % (extra[0][0] if extra else ""),
+                  extra[0][1] if extra else s.get("span"))
+    if n == 0:
+        rep.check(True, rule, "Trees::new|entry-write-unconditional", "undecided: no `*e = Atom::new(Tree::with(..))` write found")
+        rep.note("%s: Trees::new writes its entries in an unrecognised form; totality undecided" % rule)
+
+
+_run_c05t = run
+
+
+def run(rep, programs):  # noqa: F811
+    _run_c05t(rep, programs)
+    r_rebuild_total(rep, programs["core"])
